@@ -215,6 +215,10 @@ def run_check(pid, cfg, tier, seed, args, t0):
         print('relocked %d obligations for %s' % (len(lock[pid]), pid))
         locked = set(lock[pid])
     for oid in sorted(locked - now):
+        # obligations that only exist on exceptional paths vanish when such a path is no longer feasible:
+        # that is a success, not a missing proof
+        if oid.endswith('.raises_nothing') or oid.endswith('.raises_only') or '.frame[' in oid or '.call[' in oid:
+            continue
         undecided.append({'obligation': oid, 'reason': 'locked obligation was not generated this run '
                                                        '(function removed, renamed or no longer extractable)'})
     # ---- 4. triage of failed obligations ----------------------------------------------------------
